@@ -1,6 +1,8 @@
 import Driver.Mem
+import Driver.Thpool
 
 def main (args : List String) : IO UInt32 := do
   match args with
   | ["mem"] => Driver.Mem.run; return 0
+  | ["thpool"] => Driver.Thpool.run; return 0
   | _ => IO.eprintln "usage: lmdriver <model>"; return 2
